@@ -213,7 +213,9 @@ def run(prop, tier, seed):
         before = payload_of(tc, sec)
         locs = [RichLocation(1, 2, 3, 4, RichString(_value=s.decode("ascii")), None) for s in req]
         locs.append(RichLocation(5, 6, 7, 8, RichNullString(), None))
-        chk = RichChk(_chk_sections=[sec, RichMrgnSection(_locations=locs)])
+        # the strings sit in TWO rich sections of the same name (stacked sections are legal and are written back)
+        half = len(locs) // 2
+        chk = RichChk(_chk_sections=[sec, RichMrgnSection(_locations=locs[:half]), RichMrgnSection(_locations=locs[half:])])
         uniq = []
         for s in req:
             if s not in uniq:
